@@ -38,6 +38,7 @@
     buffer_feedback_diverges buffer_two_writers_ill_nested
     lazy_agrees_stagewise lazy_chain_wellnested
     trace_changes_nothing map_text_changes_only_selected_text map_text_preserves_wellnested
+    sanitizer_wellnested translator_wellnested
     apply_leaves_origin apply_appends_one_link history_keeps_chains
 -/
 import Genshi.Lemmas.TfSegs2
@@ -46,6 +47,7 @@ import Genshi.Lemmas.TfFill
 import Genshi.Lemmas.TfFillSpec
 import Genshi.Lemmas.TfLazyDiv
 import Genshi.Lemmas.TfLazyAgree
+import Genshi.Lemmas.TfOther
 namespace Genshi.Props.C20
 open Genshi Genshi.Tf
 
@@ -493,6 +495,29 @@ theorem buffer_two_writers_ill_nested :
     ∃ out, lazyOut 0 [.select [.none, .hit, .none], .cut 0 false, .endSel, .cut 0 true, .after (.buf 0)]
       [.start (qn 'r') [], .start (qn 'a') [], .end_ (qn 'a'), .end_ (qn 'r')] = some out ∧ ¬ WellNested out :=
   ⟨[.start (qn 'a') [], .end_ (qn 'a'), .end_ (qn 'r')], by decide, by decide⟩
+
+/-! ## the other built-in stream filters: well-nestedness theorems of their owners, re-used
+
+  One obligation per filter the property names: the Transformer (`chain_wellnested`,
+  `lazy_chain_wellnested`), the HTMLFormFiller (`filler_wellnested_partial`, `filler_confined_partial`), the
+  sanitizer and the translation filter below.  The serializers' internal filters (EmptyTagFilter,
+  NamespaceFlattener, WhitespaceFilter, DocTypeInserter) are stated by C08/C09 on their own event types as
+  "flattening of a forest ↦ an explicit function of the forest" (`Genshi.Output.emptyTag_flattenList`,
+  `filtered_forest`); no `balance` is defined for those types, the oracle checks nesting in → out on the
+  real code (notes/C20.md, open end 1). -/
+
+/-- HTMLSanitizer (owner: C06, `Genshi.San.wellNested_sanitize`). -/
+theorem sanitizer_wellnested {cfg : Genshi.San.Cfg} {s o : Stream} (hs : WellNested s)
+    (h : Genshi.San.sanitize cfg s = .ok o) : WellNested o := Genshi.San.wellNested_sanitize hs h
+
+/-- Translator (owner: C19, `Genshi.I18n.trList_nodes`: the pass is a tree homomorphism): on the
+    flattening of any forest, for every catalogue, context and flags, the START/END skeleton of the
+    output is well nested. -/
+theorem translator_wellnested (cfg : Genshi.I18n.Cfg) (cat : Genshi.I18n.Catalog) (ctx : Genshi.I18n.Ctx)
+    (tt ta : Bool) (ns : List Genshi.I18n.TNode) (h : Genshi.I18n.okNodes ns = true) :
+    WellNested (Genshi.I18n.tTags (Genshi.I18n.flattenNodes ns)) ∧
+    WellNested (Genshi.I18n.tTags (Genshi.I18n.trList cfg cat ctx tt ta 0 (Genshi.I18n.flattenNodes ns))) :=
+  Genshi.I18n.translate_wellNested cfg cat ctx tt ta ns h
 
 /-! ## the form filler -/
 
